@@ -235,6 +235,36 @@ class FileModel:
             self.data[c] = np.concatenate([self.data[c], np.asarray(v).astype(dt)])
 
 
+def classify(m, t):
+    """Classify an append of table spec `t` onto file model `m` -- at RUN time, against what the file
+    really holds now (an earlier op may have replaced it)."""
+    must = []
+    may = []
+    unspec = []
+    if set(t["cols"]) != set(m.cols):
+        must.append("extra-col" if set(t["cols"]) > set(m.cols) else ("missing-col" if set(t["cols"]) < set(m.cols) else "other-cols"))
+    if t["poly_trend"] != m.poly_trend or t["n_offsets"] != m.n_offsets:
+        must.append("polytrend-conflict")
+    if t["t_ref"] is not None and m.t_ref is not None and t["t_ref"] != m.t_ref:
+        must.append("tref-conflict")
+    if (t["t_ref"] is None) != (m.t_ref is None):
+        unspec.append("tref-none")
+    if not must:
+        if list(t["cols"]) != list(m.cols):
+            may.append("reorder")
+        if any(t["units"][c] != m.units[c] for c in m.cols):
+            may.append("unit")
+        if t["dtype"] != m.dtype:
+            may.append("dtype")
+    if must:
+        return "must", must[0]
+    if may:
+        return "may", may[0]
+    if unspec:
+        return "unspecified", unspec[0]
+    return "compatible", "compatible"
+
+
 def _sha(path):
     if not os.path.exists(path):
         return None
@@ -414,7 +444,6 @@ def run(program):
                         probe("write_ok" + (":overwrite-existing" if m is not None else ""))
                 continue
             if kind == "append":
-                var = op.get("variant", "compatible")
                 if fits:
                     if not raised:
                         v.append(Violation(PROPERTY, "C12.append", sig + ":fits-append-accepted", str(op)))
@@ -429,33 +458,34 @@ def run(program):
                     continue
                 if m == "unknown":
                     continue
-                if var == "compatible":
+                cls, var = classify(m, tspec)
+                if cls == "compatible":
                     if raised:
                         v.append(Violation(PROPERTY, "C12.append", sig + ":compatible-append-refused:%s" % type(err).__name__, "%s raised %r" % (op, err)))
                         must_be_identical("refused-append")
                     else:
                         m.append(tspec, built[op["table"]][1])
                         probe("append_ok")
-                        if op.get("_after_append"):
+                        if getattr(m, "_appended", False):
                             probe("append_after_append")
-                elif var in MUST_REFUSE:
+                        m._appended = True
+                elif cls == "must":
                     probe("must_refuse:" + var)
                     if raised:
                         must_be_identical("refused-append")
                     else:
-                        v.append(Violation(PROPERTY, "C12.incompatible-accepted", sig + ":incompatible-append-accepted:" + var, "%s was accepted; file sha %s -> %s" % (op, (sha0 or "")[:12], (sha1 or "")[:12])))
+                        v.append(Violation(PROPERTY, "C12.incompatible-accepted", sig + ":incompatible-append-accepted:" + var, "%s was accepted; file holds %s, table has %s; file sha %s -> %s" % (op, m.cols, tspec["cols"], (sha0 or "")[:12], (sha1 or "")[:12])))
                         model[op["path"]] = "unknown"
-                elif var in MAY_REFUSE:
+                elif cls == "may":
                     probe("may_refuse:" + var + (":refused" if raised else ":accepted"))
                     if raised:
                         must_be_identical("refused-append")
                     else:
                         try:
                             m.append(tspec, built[op["table"]][1])
-                            m._converted = True
                         except Exception:  # noqa: BLE001
                             model[op["path"]] = "unknown"
-                else:  # tref-none: unspecified
+                else:  # unspecified (t_ref None on one side only)
                     probe("unspecified:" + var + (":refused" if raised else ":accepted"))
                     if raised:
                         must_be_identical("refused-append")
